@@ -85,6 +85,11 @@ func writeFile(p *lang.Process, fn func(io.Reader, string) error) error {
 func isFileOpen(p *lang.Process, filename string) bool {
 	p = p.Previous
 	for {
+		if p.IsFork {
+			// nothing precedes this command in its pipeline: the previous
+			// process is the block itself, which never reaches Executing
+			return false
+		}
 		if p.State.Get() < state.Executing {
 			continue
 		}
